@@ -29,6 +29,9 @@ for sid in sorted(os.listdir(os.path.join(V, "seeded"))):
         subprocess.run(["git", "init", "-q", "."], cwd=repo)
         p = subprocess.run(["git", "apply", patch], cwd=repo, stdout=subprocess.PIPE, stderr=subprocess.PIPE, text=True)
         meta = json.load(open(os.path.join(d, "meta.json")))
+        if meta.get("obsolete"):
+            rows.append((sid, "OBSOLETE (no longer breaks the property on the repaired tree)", []))
+            continue
         if p.returncode != 0:
             meta["applies_to_current_head"] = False
             meta["caught_by"] = meta.get("caught_by", [])
